@@ -430,9 +430,30 @@ int main (int argc, char **argv)
 	while ((n = getline (&line, &cap, stdin)) > 0)
 	{
 		const char *c;
+		int forked = 0;
+		pid_t pid = 0;
 		tokenize (line);
 		if (!NTOK) continue;
 		c = tok ();
+		if (!strcmp (c, "fork"))
+		{
+			/* run the command in a child so that a crash is a result, not the end of the run */
+			fflush (stdout);
+			pid = fork ();
+			if (pid)
+			{
+				int st = 0;
+				waitpid (pid, &st, 0);
+				if (WIFSIGNALED (st)) printf ("signal %d\n", WTERMSIG (st));
+				else if (WEXITSTATUS (st)) printf ("childexit %d\n", WEXITSTATUS (st));
+				printf (".\n");
+				fflush (stdout);
+				continue;
+			}
+			forked = 1;
+			alarm (60);
+			c = tok ();
+		}
 		if (!strcmp (c, "inf")) cmd_inf ();
 		else if (!strcmp (c, "new")) cmd_new ();
 		else if (!strcmp (c, "free")) cmd_free ();
@@ -449,6 +470,7 @@ int main (int argc, char **argv)
 			if (B) mpq_QSfree_basis (B);
 		}
 		else if (!qsx_more_commands (c)) printf ("bad-op %s\n", c);
+		if (forked) { fflush (stdout); _exit (0); }
 		printf (".\n");
 		fflush (stdout);
 	}
